@@ -227,7 +227,11 @@ def identity_case(ctx, idx, rng):
     qd = _qd(rng, d, str(rng.choice(['zero', 'unsorted', 'pairs', 'huge'])))
     scale = float(rng.choice([1, -2.5, 0.5]))
     dt = (complex, float)[idx % 2]
-    ctx.case(('identity', f'L{L}', f'd{d}', f'scale{scale}', dt.__name__), sample={'qd': qd, 'L': L, 'scale': scale})
+    if idx % 4 == 3:
+        # scale and dtype of different kinds: the scale must never be narrowed to the dtype (non-integer scale with an integer dtype, complex scale with
+        # a real dtype, double-precision scale with a single-precision dtype)
+        scale, dt = [(2.5, int), (-0.5, np.int64), (0.5 + 1.5j, float), (1j, int), (np.float64(1.0) / 3, np.float32), (1 + 2j, np.float32)][(idx // 4) % 6]
+    ctx.case(('identity', f'L{L}', f'd{d}', f'scale{scale}', np.dtype(dt).name), sample={'qd': qd, 'L': L, 'scale': scale})
     detail = {'qd': qd, 'L': L, 'scale': scale}
     qd0 = qd.copy()
     op = ptn.MPO.identity(qd, L, scale=scale, dtype=dt) if idx % 3 else (ptn.MPO.identity(qd, L) if scale == 1 else ptn.MPO.identity(qd, L, scale))
@@ -310,6 +314,46 @@ def from_vector_case(ctx, idx, rng):
         ctx.ok('from_vector.bond-dims', all(D <= min(d ** i, d ** (L - i)) for i, D in enumerate(psi.bond_dims)), f'bond dims {psi.bond_dims} exceed the Schmidt bound', detail)
         if idx % 3 == 0:
             site_edit_probe(ctx, 'from_vector', psi, False, rng, float(np.linalg.norm(v0)), detail)
+
+
+def open_segment_case(ctx, idx, rng):
+    """Composition of CHAIN SEGMENTS: MPOs whose first and / or last bond has dimension > 1 (the MPO constructor allows this; segments of a longer operator).
+    Reference: the dense four-leg form (left bond, rows, columns, right bond) contracted independently; the outer bonds of a @ b are the products of the
+    operands' outer bonds (a major, b minor), with labels qa + qb."""
+    L = int(rng.integers(1, 4))
+    d = int(rng.choice([1, 2, 2, 3]))
+    qd = _qd(rng, d, str(rng.choice(['zero', 'unsorted', 'pairs'])))
+    diffs = np.unique(np.subtract.outer(qd, qd))
+    ends = ('both', 'left', 'right', 'one-each')[idx % 4]
+    def lab(n):
+        return rng.choice(diffs, size=n)
+    na = [int(rng.integers(2, 4)) if ends in ('both', 'left', 'one-each') else 1, int(rng.integers(2, 4)) if ends in ('both', 'right') else 1]
+    nb = [int(rng.integers(2, 4)) if ends in ('both', 'left') else 1, int(rng.integers(2, 4)) if ends in ('both', 'right', 'one-each') else 1]
+    A = gen.rand_mpo(rng, qd, L, Dmax=2, kind='complex', open_bonds=(lab(na[0]), lab(na[1])))
+    B = gen.rand_mpo(rng, qd, L, Dmax=2, kind=str(rng.choice(['complex', 'real'])), open_bonds=(lab(nb[0]), lab(nb[1])))
+    ctx.case(('mpo-open-segments', f'L{L}', f'd{d}', ends), sample={'qd': qd, 'qDA': A.qD, 'qDB': B.qD})
+    detail = {'qd': qd, 'A': {'qD': A.qD, 'A': A.A}, 'B': {'qD': B.qD, 'A': B.A}}
+
+    def dense4(T):
+        M = np.ones((T[0].shape[2], 1, 1, T[0].shape[2]), dtype=complex) * 0
+        for a in range(T[0].shape[2]):
+            M[a, 0, 0, a] = 1
+        for W in T:
+            X = np.tensordot(M, np.asarray(W), axes=([3], [2]))          # a r c s t b
+            X = X.transpose(0, 1, 3, 2, 4, 5)
+            M = X.reshape(X.shape[0], X.shape[1] * X.shape[2], X.shape[3] * X.shape[4], X.shape[5])
+        return M
+    with monitor.write_protected(A, B):
+        C = A @ B
+    inv = refs.mpo_invariant(C)
+    if not ctx.ok('mpo-open.block-sparse', inv is None, str(inv), detail):
+        return
+    want = np.einsum('arsb,cstd->acrtbd', dense4(A.A), dense4(B.A))
+    want = want.reshape(want.shape[0] * want.shape[1], want.shape[2], want.shape[3], want.shape[4] * want.shape[5])
+    got = dense4(C.A)
+    if ctx.ok('mpo-open.outer-bonds', got.shape == want.shape and np.array_equal(C.qD[0], np.add.outer(A.qD[0], B.qD[0]).reshape(-1))
+              and np.array_equal(C.qD[-1], np.add.outer(A.qD[-1], B.qD[-1]).reshape(-1)), f'outer bonds {C.qD[0]} / {C.qD[-1]}', detail):
+        _rel(ctx, 'mpo-open.matmul.dense', got, want, ts(A) * ts(B), detail)
 
 
 def merge_split_case(ctx, idx, rng):
@@ -481,6 +525,7 @@ SPEC = {
         Workload('identity', identity_case, quick=120, thorough=8000),
         Workload('empty-bond', empty_bond_case, quick=120, thorough=8000),
         Workload('from-vector', from_vector_case, quick=250, thorough=48000),
+        Workload('open-segments', open_segment_case, quick=200, thorough=24000),
         Workload('large', large_case, quick=80, thorough=8000),
         Workload('merge-split', merge_split_case, quick=600, thorough=64000),
         Workload('suite-soak', soak_case, quick=0, thorough=1, shardable=False),
